@@ -663,6 +663,111 @@ M("C13", "R-setter-order-swapped", SCENF,
 M("C13", "R-override-removesuffix", ANIMF,
   '''key[: -len("_start")]''', '''key.removesuffix("_start")''', None)
 
+# ---------------------------------------------------------------------------- C15
+RMNTF = "src/scenarios/run_model_no_trade.py"
+M("C15", "denominator-before-nan-skip", RMNTF,
+  '''            # skip countries with no
+            if np.isnan(population):
+                continue
+''', '''            net_pop += population
+            # skip countries with no
+            if np.isnan(population):
+                continue
+''', "C15.ACC", more=[(RMNTF, '''            net_pop_fed += capped_ratio * population
+            net_pop += population
+''', '''            net_pop_fed += capped_ratio * population
+''')])
+M("C15", "cap-removed", RMNTF,
+  '''            if needs_ratio >= 1:
+                capped_ratio = 1
+            else:
+                capped_ratio = needs_ratio
+''', '''            capped_ratio = needs_ratio
+''', "C15.ACC")
+M("C15", "cap-inverted", RMNTF,
+  '''            if needs_ratio >= 1:
+                capped_ratio = 1
+            else:
+                capped_ratio = needs_ratio
+''', '''            if needs_ratio >= 1:
+                capped_ratio = needs_ratio
+            else:
+                capped_ratio = 1
+''', "C15.ACC")
+M("C15", "unweighted-numerator", RMNTF,
+  '''            net_pop_fed += capped_ratio * population''', '''            net_pop_fed += capped_ratio''', "C15.ACC")
+M("C15", "return-slots-swapped", RMNTF,
+  '''        return [world, net_pop, net_pop_fed, results]''', '''        return [world, net_pop_fed, net_pop, results]''', "C15.ACC")
+M("C15", "bang-test-inverted", RMNTF,
+  '''            for c in countries_list:
+                if "!" not in c:
+                    exclusive_countries_to_run.append(c)''', '''            for c in countries_list:
+                if "!" in c:
+                    exclusive_countries_to_run.append(c)''', "C15.SEL")
+M("C15", "exclusion-needs-any-not-all", RMNTF,
+  '''        if np.array([("!" in c) for c in countries_list]).all():''',
+  '''        if np.array([("!" in c) for c in countries_list]).any():''', "C15.SEL")
+M("C15", "prefix-not-removed", RMNTF,
+  '''                    countries_to_skip.append(c.replace("!", ""))''', '''                    countries_to_skip.append(c)''', "C15.SEL")
+M("C15", "returned-lists-swapped", RMNTF,
+  '''        return exclusive_countries_to_run, countries_to_skip''', '''        return countries_to_skip, exclusive_countries_to_run''', "C15.SEL")
+M("C15", "skip-test-dropped", RMNTF,
+  '''            if country_code in countries_to_skip:
+                continue
+''', '', "C15.SEL")
+M("C15", "results-keyed-by-scenario", RMNTF,
+  '''                results[country_name] = interpreted_results''', '''                results[title] = interpreted_results''', "C15.ACC")
+M("C15", "table-duplicate-row", "data/no_food_trade/computer_readable_combined.csv",
+  '''ZWE,''', '''ZMB,''', "C15.ONCE", copy_data=True)
+M("C15", "R-cap-as-min", RMNTF,
+  '''            if needs_ratio >= 1:
+                capped_ratio = 1
+            else:
+                capped_ratio = needs_ratio
+''', '''            capped_ratio = min(1, needs_ratio)
+''', None)
+M("C15", "R-selection-rewritten", RMNTF,
+  '''            for c in countries_list:
+                if "!" not in c:
+                    exclusive_countries_to_run.append(c)''', '''            exclusive_countries_to_run = [c for c in countries_list if not ("!" in c)]''', None)
+
+# ---------------------------------------------------------------------------- C17
+IUF = "src/utilities/import_utilities.py"
+TBL = "data/no_food_trade/computer_readable_combined.csv"
+M("C17", "row-deleted", TBL, '''\nZWE,''', '''\nXXX_REMOVED,''', "C17.TABLE", copy_data=True)
+M("C17", "avg-boundary-inclusive", IUF, '''percentage > 1e5 or percentage < -100:''', '''percentage > 1e5 or percentage <= -100:''', "C17.AVG")
+M("C17", "avg-upper-threshold", IUF, '''percentage > 1e5 or percentage < -100:''', '''percentage > 1e4 or percentage < -100:''', "C17.AVG")
+M("C17", "avg-unweighted", IUF, '''                mean_value += percentage * weight''', '''                mean_value += percentage''', "C17.AVG")
+M("C17", "avg-rejected-weight-lost", IUF, '''                rejected_weighting_sum += weight''', '''                rejected_weighting_sum += 0''', "C17.AVG")
+M("C17", "avg-rejected-leaks", IUF, '''            if percentage > 1e5 or percentage < -100:
+                # If this is a nonsensical percentage reduction, add the weight to the rejected_weighting_sum
+                rejected_weighting_sum += weight''', '''            if percentage > 1e5 or percentage < -100:
+                # If this is a nonsensical percentage reduction, add the weight to the rejected_weighting_sum
+                rejected_weighting_sum += weight
+                mean_value += percentage * weight''', "C17.AVG")
+M("C17", "avg-no-renormalisation", IUF, '''        return mean_value / renormalization''', '''        return mean_value''', "C17.AVG")
+M("C17", "pipeline-skips-script", "scripts/run_all_imports.sh", '''python create_pulp_csv.py
+''', '', "C17.WIRE")
+M("C17", "merge-not-last", "scripts/run_all_imports.sh", '''python create_meat_per_animal_csv.py
+python import_food_data.py
+''', '''python import_food_data.py
+python create_meat_per_animal_csv.py
+''', "C17.WIRE")
+M("C17", "outer-join", "src/import_scripts_no_food_trade/import_food_data.py", '''how="inner"''', '''how="outer"''', "C17.WIRE")
+M("C17", "null-assert-dropped", "src/import_scripts_no_food_trade/import_food_data.py", '''assert (
+    not df_merged.isnull().values.any()
+), "Error: there were null values in computer_readable_combined dataframe"
+''', '', "C17.WIRE")
+M("C17", "model-reads-unknown-column", "src/scenarios/scenarios.py",
+  '''country_data["retail_waste_price_triple"]''', '''country_data["retail_waste_price_tripled"]''', "C17.WIRE")
+M("C17", "R-avg-predicate-rewritten", IUF, '''            if percentage > 1e5 or percentage < -100:''',
+  '''            if not (-100 <= percentage <= 1e5):''', None)
+M("C17", "R-avg-accumulate-reordered", IUF, '''                N_valid_percentages += 1
+                mean_value += percentage * weight
+                non_rejected_weighting_sum += weight''', '''                non_rejected_weighting_sum += weight
+                mean_value += weight * percentage
+                N_valid_percentages += 1''', None)
+
 # ---------------------------------------------------------------------------- runner
 
 COPY = ["src", "scenarios", "scripts", "plot_manuscript_figures.py", "tests"]
